@@ -401,6 +401,18 @@ void ec_dlog_3(digit_t *scalarP,
  * @{
  */
 
+#ifdef SQISIGN_SQISIGN2D_WEST_AC24_VERIF
+/* verification hook (H3): traversal trace callback used by the strategy-driven chain routines
+ * (ec_eval_even_strategy, theta_chain_comput_strategy*). NULL by default; add-only; compiled out
+ * without the guard. */
+extern void (*sqisign_verif_trace)(int tag, int a, int b, int c);
+#define SQISIGN_VERIF_TRACE(tag, a, b, c)                                                          \
+    do {                                                                                           \
+        if (sqisign_verif_trace)                                                                   \
+            sqisign_verif_trace((tag), (a), (b), (c));                                             \
+    } while (0)
+#endif
+
 /**
  * @brief Evaluate isogeny of even degree on list of points
  *
